@@ -115,7 +115,7 @@ pub fn rename_spec(s: &JSpec, f: &dyn Fn(&S) -> S) -> JSpec {
 // ---------- the documented rules on the jar ----------
 pub struct RefNesting { pub applied: MTable, pub created: Vec<S>, pub created_listed: bool }
 fn digit(c: u32) -> bool { (48..=57).contains(&c) }
-fn anon_ok(s: &S) -> bool {
+pub fn anon_ok(s: &S) -> bool {
 	// a positive decimal number that fits an i32 (a leading `+` is accepted by Rust's parser)
 	let d: &[u32] = if s.first() == Some(&('+' as u32)) { &s[1..] } else { &s[..] };
 	if d.is_empty() || !d.iter().all(|&c| digit(c)) { return false; }
